@@ -97,7 +97,11 @@ def definitional_cycle(texts):
         color[n] = 2
         return False
     import sys
-    sys.setrecursionlimit(10000)
-    return any(color.get(n, 0) == 0 and dfs(n) for n in list(graph))
+    old_limit = sys.getrecursionlimit()
+    sys.setrecursionlimit(20000)
+    try:
+        return any(color.get(n, 0) == 0 and dfs(n) for n in list(graph))
+    finally:
+        sys.setrecursionlimit(old_limit)     # the assembler under test keeps the interpreter's default limit
 
 
